@@ -13,23 +13,38 @@ EXTENDS Naturals, Sequences, FiniteSets, TLC, Json
 
 CONSTANTS MaxN, Kinds
 
-VARIABLES n, m, o, dev
-vars == <<n, m, o, dev>>
+(* ce = the first record whose condition cannot be evaluated (0 = none): the engine evaluates the condition
+   record by record and stops there, so only records before ce are classified (kept / passed through).
+     dev = 0: every classified record keeps its place and its own result, then ONE error result follows
+              for record ce (the caller rejects that record and retries what comes after it);
+     dev = 1 (the plugin answers one result short): the result ends where the plugin stopped - exactly
+              the records before the last kept one, aligned - and carries NO error: the condition error
+              belongs to an even later record, which is simply not reached in this call;
+     dev = 2 (one surplus result): the documented refusal - one error result, nothing else.           *)
+VARIABLES n, m, o, dev, ce
+vars == <<n, m, o, dev, ce>>
 
-KeptOf(nn, mm) == {i \in 1..nn : mm[i]}
+Evald(nn, c) == IF c = 0 THEN 1..nn ELSE 1..(c - 1)
+KeptOf(nn, mm, c) == {i \in Evald(nn, c) : mm[i]}
 Init == /\ n \in 1..MaxN
         /\ m \in [1..n -> BOOLEAN]
-        /\ o \in [1..Cardinality(KeptOf(n, m)) -> Kinds]
+        /\ ce \in 0..n
+        /\ o \in [1..Cardinality(KeptOf(n, m, ce)) -> Kinds]
         /\ dev \in {0, 1, 2}     \* 0 = exact, 1 = one short, 2 = one surplus
-        /\ (dev = 1 => Cardinality(KeptOf(n, m)) > 0)
+        /\ (dev # 0 => Cardinality(KeptOf(n, m, ce)) > 0)
 Next == UNCHANGED vars
 Spec == Init /\ [][Next]_vars
 
-Rank(i) == Cardinality({j \in 1..i : m[j]})
+Kept == KeptOf(n, m, ce)
+Rank(i) == Cardinality({j \in 1..i : j \in Kept})
+Own(i) == IF i \in Kept THEN <<o[Rank(i)], i>> ELSE <<"single", i>>
+LastKept == CHOOSE i \in Kept : \A j \in Kept : j <= i
+Upto(k) == [i \in 1..k |-> Own(i)]
 Expected ==
-  IF dev = 2 /\ KeptOf(n, m) # {} THEN << <<"error", 0>> >>
-  ELSE [i \in 1..n |-> IF m[i] THEN <<o[Rank(i)], i>> ELSE <<"single", i>>]
+  CASE dev = 2 -> << <<"error", 0>> >>
+    [] dev = 1 -> Upto(LastKept - 1)
+    [] OTHER   -> IF ce = 0 THEN Upto(n) ELSE Append(Upto(ce - 1), <<"error", 0>>)
 
-Case == [n |-> n, mask |-> m, out |-> o, dev |-> dev, expected |-> Expected]
+Case == [n |-> n, mask |-> m, out |-> o, dev |-> dev, ce |-> ce, expected |-> Expected]
 EmitCase == PrintT("CASE " \o ToJson(Case))
 =============================================================================
